@@ -90,3 +90,27 @@ Theorem C10_run_is_interleaving : forall s, exists ls,
   hsteps s ls = Some (fst (do_run s)) /\ Forall (fun l => l = LXf \/ l = LXs \/ l = LXp) ls.
 Proof. exact run_is_interleaving. Qed.
 Print Assumptions C10_run_is_interleaving.
+
+(** Tie to the source: the kernels regenerated on every run from
+    crates/astria-conductor/src/executor/mod.rs ([should_execute_firm_block]; the enum
+    [CommitLevel] is read from config.rs) and crates/astria-conductor/src/state.rs (the two
+    height/number maps) by tools/rs2v.py are the model's functions the theorems above are about.
+    [Some (res_of_opt _)]: the Rust function returns [Err] exactly where the model returns [None],
+    and never panics.  [next_of] = the regenerated map, [expect]ed, then tendermint's
+    [Height::increment] ([KernelLib.height_increment], transcribed by hand). *)
+From Astria Require Import Kernels.KernelEqConductorExec.
+Theorem C10_kernels_tied :
+  (forall nf ns m, KConductorExec.should_execute_firm_block nf ns (level_of m)
+                   = Some (should_execute_firm nf ns m)) /\
+  (forall sstart rstart num, KConductorState.map_rollup_number_to_sequencer_height sstart rstart num
+                   = Some (KernelLib.res_of_opt (map_r2s sstart rstart num))) /\
+  (forall sstart rstart h, KConductorState.try_map_sequencer_height_to_rollup_height sstart rstart h
+                   = Some (KernelLib.res_of_opt (s2r sstart rstart h))) /\
+  (forall sstart rstart num, next_of sstart rstart num
+                   = KernelLib.bind (KConductorState.map_rollup_number_to_sequencer_height sstart rstart num)
+                       (fun r => KernelLib.bind (KernelLib.unwrap_res r) KernelLib.height_increment)).
+Proof.
+  exact (conj keq_should_execute_firm_block_mode (conj keq_map_rollup_number_to_sequencer_height
+        (conj keq_try_map_sequencer_height_to_rollup_height keq_next_of))).
+Qed.
+Print Assumptions C10_kernels_tied.
